@@ -362,18 +362,25 @@ def check_no_panic(ctx, rep, tier):
         for nm in names:
             stage_opaque.add(find_method(ctx, adt, nm)['path'])
     ed_methods = [f for f in handwritten if (f.get('impl_self') or {}).get('path') == 'EventDecoder' and not f.get('impl_trait')]
+    def run_api(f, label, **kw):
+        # operations the statement lists must be decidable; an addition to the API that is not is noted, not judged
+        try:
+            run_simple(ctx, rep, f['path'], label, **kw)
+        except Undecided as u:
+            if f['name'] in KNOWN_API:
+                raise
+            rep.note('new public function %s could not be analysed (API extension, not judged): %s' % (f['path'], str(u)[:160]))
+        covered_fns.add(f['path'])
     for f in ed_methods:
         if f['vis'] != 'pub':
             continue    # private helpers are analysed where the public operations inline them (with the arguments they really get)
-        run_simple(ctx, rep, f['path'], 'EventDecoder::' + f['name'])
-        covered_fns.add(f['path'])
+        run_api(f, 'EventDecoder::' + f['name'])
     stage_opaque |= {f['path'] for f in ed_methods}
     kb_methods = [f for f in handwritten if (f.get('impl_self') or {}).get('path') == 'Keyboard' and not f.get('impl_trait')]
     for f in kb_methods:
         if f['vis'] != 'pub':
             continue
-        run_simple(ctx, rep, f['path'], 'Keyboard::' + f['name'], opaque=stage_opaque)
-        covered_fns.add(f['path'])
+        run_api(f, 'Keyboard::' + f['name'], opaque=stage_opaque)
     # ---- 5. layouts ----------------------------------------------------------
     tabs = extract_all_layouts(ctx)
     rep.floor('concrete layouts', len(tabs), 10)
